@@ -242,7 +242,7 @@ class _Tick(RecurringTask):
 
 
 @meta(bounds="interval = 125 ms * m and offset = 125 ms * k, m in mlo..mhi (chosen per path, so that the solver "
-             "sees linear arithmetic), 0 <= k < m; installed at the instant j/8 s (j in 0..jmax); the real core.run "
+             "sees linear arithmetic), 0 <= k < m (wide instances: k < 3m); installed at the instant j/8 s (j in 0..jmax); the real core.run "
              "then runs for h/8 s of virtual time, sleeping from firing to firing, h in 0..min(hmax, fmax*m) (at "
              "most fmax+1 firings); k, j, h symbolic integers; drive=direct polls get_next_task/process_task "
              "instead.  Oracle in integer eighths of a second: firing i happens at the i-th slot k + q*m that is "
@@ -256,11 +256,12 @@ class _Tick(RecurringTask):
               "intervals above mhi/8 s, more than fmax+1 firings, installation within 1e-6 s before a slot, "
               "negative offsets, several recurring tasks at once",
       stubs=STUBS, assumes=[EXACT])
-def recurring(d, mlo, mhi, jmax, hmax, fmax, drive="loop", reinstall=False):
+def recurring(d, mlo, mhi, jmax, hmax, fmax, drive="loop", reinstall=False, wide=False):
     w = World()
     log = []
     m = d.pick(range(mlo, mhi + 1), 'interval/125ms')
-    k = d.int(0, m - 1, 'offset/125ms')
+    # wide: offsets up to three intervals (an offset is a phase: the slots are offset + q * interval for every integer q)
+    k = d.int(0, 3 * m - 1 if wide else m - 1, 'offset/125ms')
     j = d.int(0, jmax, 'install/125ms')
     h = d.int(0, min(hmax, fmax * m), 'horizon/125ms')
     w.clock = j / 8.0
@@ -617,6 +618,38 @@ def self_rearm(d):
     d.reach()
 
 
+@meta(bounds="a batch of three deferred functions one of which (symbolic position) calls core.stop(), handed to the queue before the "
+             "real core.run is started on the virtual clock: every function of the batch is called exactly once, in order, the "
+             "loop ends; a function deferred BY one of them (symbolic) is not lost either - it is called by this run or by the "
+             "next one",
+      outside="stop() from a task or a signal handler",
+      stubs=STUBS, assumes=[])
+def deferred_stop(d):
+    w = World()
+    called = []
+    at = d.index(3, 'stopper')
+    child_of = d.pick([None, 0, 1, 2], 'defers_a_child')
+
+    def member(i):
+        def body():
+            called.append(i)
+            if child_of == i:
+                core.deferred(called.append, "child")
+            if i == at:
+                core.stop()
+        return body
+    for i in range(3):
+        core.deferred(member(i))
+    w.run(until=w.clock, max_loops=12)
+    if [x for x in called if x != "child"] != [0, 1, 2]:
+        raise Violation("deferred-lost-after-stop", stopper=at, called=list(called))
+    w.run(until=w.clock, max_loops=12)
+    want = [0, 1, 2] + (["child"] if child_of is not None else [])
+    if sorted(map(str, called)) != sorted(map(str, want)):
+        raise Violation("deferred-child-lost-after-stop", stopper=at, child_of=child_of, called=list(called))
+    d.reach()
+
+
 def _prefixes(k):
     out = [[]]
     for _ in range(k):
@@ -678,6 +711,9 @@ def instances(tier):
     for re_ in (False, True):
         out.append(Inst(recurring_near_slot, dict(reinstall=re_), budget=90, label="reinstall" if re_ else "install"))
     out.append(Inst(self_rearm, {}, budget=90))
+    out.append(Inst(deferred_stop, {}, budget=90))
+    out.append(Inst(recurring, dict(mlo=1, mhi=4 if q else 8, jmax=8, hmax=12, fmax=6, drive="loop", wide=True),
+                    budget=120 if q else 600, path_timeout=120, label="wide offsets"))
     out.append(Inst(sched_close, dict(n=2 if q else 3), budget=90 if q else 300))
     if q:
         out.append(Inst(sched_close, dict(n=3), budget=120))
